@@ -6,6 +6,8 @@
  * file, you can obtain one at https://mozilla.org/MPL/2.0/.
  */
 
+#include <algorithm>
+
 #include "cdns_decoder.h"
 
 CDNS::CborType CDNS::CdnsDecoder::peek_type()
@@ -293,7 +295,8 @@ std::string CDNS::CdnsDecoder::read_string(CborType cbor_type, uint64_t length, 
     std::string ret;
 
     if (!indef) {
-        ret.reserve(length);
+        // The length comes from the input: reserve only what a single buffer fill can back
+        ret.reserve(std::min<uint64_t>(length, static_cast<uint64_t>(BUFFER_SIZE)));
         for (unsigned i = 0; i < length; i++) {
             read_to_buffer();
             ret.push_back(m_p[0]);
@@ -314,7 +317,7 @@ std::string CDNS::CdnsDecoder::read_string(CborType cbor_type, uint64_t length, 
             }
 
             uint64_t chunk_length = read_int(chunk_length_value);
-            ret.reserve(ret.size() + chunk_length);
+            ret.reserve(ret.size() + std::min<uint64_t>(chunk_length, static_cast<uint64_t>(BUFFER_SIZE)));
             for (unsigned i = 0; i < chunk_length; i++) {
                 read_to_buffer();
                 ret.push_back(m_p[0]);
